@@ -2589,6 +2589,15 @@ func (db *DB) ApplyLTXNoLock(path string, fatalOnError bool) (retErr error) {
 	hdr = dec.Header()
 	if db.pageSize == 0 || (db.PageN() == 0 && dec.Header().Commit > 0) {
 		db.pageSize = dec.Header().PageSize // unknown, or recreated after a deletion
+	} else if hdr.IsSnapshot() && hdr.Commit > 0 && hdr.PageSize != db.pageSize {
+		// A snapshot replaces the whole database. With another page size it is
+		// another incarnation (dropped and recreated while this node missed the
+		// deletion): nothing cached about the old pages applies to it.
+		db.pageSize = hdr.PageSize
+		db.pageN.Store(0)
+		db.chksums.mu.Lock()
+		db.chksums.pages, db.chksums.blocks = nil, nil
+		db.chksums.mu.Unlock()
 	}
 
 	// Delete database files if this has a zero "commit" field.
